@@ -66,19 +66,21 @@ def emit (sw : Sw) (e : Ev) : Sw :=
   | none, some cr => if cr.isEmpty then sw else { sw with cur := some (e.1, cr) }
   | none, none => sw
 
-/-- The final pass (repaired): drop zero-length ranges, fuse touching ranges of equal coverage. -/
-def postPass : FlatST → FlatST → FlatST
-  | acc, [] => acc.reverse
-  | acc, (t, s) :: rest =>
+/-- The final pass (repaired): drop zero-length ranges, fuse touching ranges of equal coverage.
+    `cur` is the last pushed pair (`x.last_mut()`, `y.last()`). -/
+def postPassFrom (cur : Rng × Space) : FlatST → FlatST
+  | [] => [cur]
+  | (t, s) :: rest =>
     if t.1 < t.2 then
-      match acc with
-      | (lt, ls) :: acc' =>
-        if lt.2 = t.1 && ls == s then postPass (((lt.1, t.2), ls) :: acc') rest
-        else postPass ((t, s) :: acc) rest
-      | [] => postPass [(t, s)] rest
-    else postPass acc rest
+      if cur.1.2 = t.1 && cur.2 == s then postPassFrom ((cur.1.1, t.2), cur.2) rest
+      else cur :: postPassFrom (t, s) rest
+    else postPassFrom cur rest
+
+def postPass : FlatST → FlatST
+  | [] => []
+  | (t, s) :: rest => if t.1 < t.2 then postPassFrom (t, s) rest else postPass rest
 
 def merge2 (op : Op) (a b : FlatST) : FlatST :=
-  postPass [] ((mergeEvents op (evs a) (evs b) none none).foldl emit {}).out
+  postPass ((mergeEvents op (evs a) (evs b) none none).foldl emit {}).out
 
 end Moc.Merge2D
